@@ -1,0 +1,99 @@
+//! Verification instrumentation, compiled only with `--cfg poulpy_verif`.
+//!
+//! The accessors of [`crate::layouts::ZnxView`] / [`crate::layouts::ZnxViewMut`] build slices from the
+//! `(n, cols, size)` metadata without looking at the length of the backing buffer.  With the cfg on, every
+//! such accessor first checks that the addressed scalars lie inside `data` (and that the base pointer is
+//! aligned for the scalar type) and reports a violation here instead of silently producing an out-of-bounds
+//! view.  Nothing in this module changes what the library computes.
+use std::sync::Mutex;
+use std::sync::atomic::{AtomicBool, AtomicU64, Ordering};
+
+static VIOLATIONS: AtomicU64 = AtomicU64::new(0);
+static CHECKS: AtomicU64 = AtomicU64::new(0);
+static PANIC_ON_VIOLATION: AtomicBool = AtomicBool::new(false);
+static LAST: Mutex<Option<String>> = Mutex::new(None);
+
+/// Number of violations reported since the last [`reset`].
+pub fn violations() -> u64 {
+    VIOLATIONS.load(Ordering::SeqCst)
+}
+
+/// Number of accessor checks performed since the last [`reset`] (shows that the hook is live).
+pub fn checks() -> u64 {
+    CHECKS.load(Ordering::SeqCst)
+}
+
+/// Clears the counters and the last message.
+pub fn reset() {
+    VIOLATIONS.store(0, Ordering::SeqCst);
+    CHECKS.store(0, Ordering::SeqCst);
+    *LAST.lock().unwrap_or_else(|e| e.into_inner()) = None;
+}
+
+/// Message of the most recent violation (and clears it).
+pub fn take_last() -> Option<String> {
+    LAST.lock().unwrap_or_else(|e| e.into_inner()).take()
+}
+
+/// When set, a violation panics (after being counted) instead of letting the caller go on with an
+/// out-of-bounds view.  Off by default.
+pub fn set_panic_on_violation(on: bool) {
+    PANIC_ON_VIOLATION.store(on, Ordering::SeqCst);
+}
+
+/// Records one violation.
+pub fn report(msg: String) {
+    VIOLATIONS.fetch_add(1, Ordering::SeqCst);
+    let panic_now: bool = PANIC_ON_VIOLATION.load(Ordering::SeqCst);
+    *LAST.lock().unwrap_or_else(|e| e.into_inner()) = Some(msg.clone());
+    if panic_now {
+        panic!("poulpy_verif: {msg}");
+    }
+}
+
+/// `offset + n <= data_len / scalar_bytes` for the limb view starting at scalar `offset`.
+#[allow(clippy::too_many_arguments)]
+#[inline]
+pub fn check_at(what: &'static str, ptr: usize, align: usize, n: usize, cols: usize, size: usize, i: usize, j: usize, scalar_bytes: usize, data_len: usize) {
+    CHECKS.fetch_add(1, Ordering::Relaxed);
+    let end: Option<usize> = j
+        .checked_mul(cols)
+        .and_then(|x| x.checked_add(i))
+        .and_then(|x| x.checked_mul(n))
+        .and_then(|x| x.checked_add(n));
+    let ok: bool = match end {
+        Some(end) => scalar_bytes != 0 && end <= data_len / scalar_bytes,
+        None => false,
+    };
+    if !ok {
+        report(format!(
+            "{what}: limb view out of bounds: n={n} cols={cols} size={size} i={i} j={j} scalar_bytes={scalar_bytes} data_len={data_len}"
+        ));
+    } else if n != 0 && align != 0 && !ptr.is_multiple_of(align) {
+        report(format!("{what}: base pointer {ptr:#x} not aligned to {align}"));
+    }
+}
+
+/// `n * poly_count * scalar_bytes <= data_len` for the whole-buffer view.
+#[inline]
+pub fn check_raw(what: &'static str, ptr: usize, align: usize, n: usize, poly_count: usize, scalar_bytes: usize, data_len: usize) {
+    CHECKS.fetch_add(1, Ordering::Relaxed);
+    let bytes: Option<usize> = n.checked_mul(poly_count).and_then(|x| x.checked_mul(scalar_bytes));
+    let ok: bool = matches!(bytes, Some(b) if b <= data_len);
+    if !ok {
+        report(format!(
+            "{what}: raw view out of bounds: n={n} poly_count={poly_count} scalar_bytes={scalar_bytes} data_len={data_len}"
+        ));
+    } else if n != 0 && poly_count != 0 && align != 0 && !ptr.is_multiple_of(align) {
+        report(format!("{what}: base pointer {ptr:#x} not aligned to {align}"));
+    }
+}
+
+/// `end <= data_len` for a byte range `[start, end)` (matrix entry views).
+#[inline]
+pub fn check_bytes(what: &'static str, start: usize, end: usize, data_len: usize) {
+    CHECKS.fetch_add(1, Ordering::Relaxed);
+    if start > end || end > data_len {
+        report(format!("{what}: byte range [{start}, {end}) outside buffer of {data_len} bytes"));
+    }
+}
